@@ -6,6 +6,7 @@ import (
 	"go/constant"
 	"go/token"
 	"go/types"
+	"strconv"
 	"strings"
 
 	"golang.org/x/tools/go/packages"
@@ -49,6 +50,7 @@ type Interp struct {
 	frames     []*frame
 	ctl        []*loopCtl // enclosing breakable statements of all activations (innermost last)
 	ctlBase    int        // first entry of ctl that belongs to the current function activation
+	initsDone  map[*packages.Package]bool
 	depth      int
 	Steps      int
 	Called     map[string]bool // functions interpreted (for evidence)
@@ -293,10 +295,10 @@ func (in *Interp) mergeReturns(f *frame, sig *types.Signature) []Value {
 func asErr(v Value) Value {
 	switch x := v.(type) {
 	case NilVal:
-		return &ErrVal{False}
+		return &ErrVal{NonNil: False}
 	case *Iface:
 		if _, ok := x.Dyn.(NilVal); ok {
-			return &ErrVal{False}
+			return &ErrVal{NonNil: False}
 		}
 		if e, ok := x.Dyn.(*ErrVal); ok {
 			return e
@@ -518,6 +520,7 @@ func (in *Interp) stmt(s ast.Stmt) {
 		coll := in.expr(x.X)
 		var n int
 		var at func(i int) Value
+		var mapKeys []Value
 		switch cv := coll.(type) {
 		case *Array:
 			n = len(cv.E)
@@ -535,6 +538,33 @@ func (in *Interp) stmt(s ast.Stmt) {
 			at = func(i int) Value { return arr.E[i].V }
 		case NilVal:
 			n = 0
+		case *MapVal:
+			// entries in insertion order (Go's order is unspecified: code whose result depends on it is outside the model)
+			var keys []Value
+			var vals []Value
+			for _, k := range cv.Order {
+				c := cv.E[k]
+				if c == nil || c.V == nil {
+					continue
+				}
+				var kv Value
+				switch {
+				case strings.HasPrefix(k, "i:"):
+					iv, _ := strconv.ParseInt(k[2:], 10, 64)
+					if w, sg, ok := widthOf(cv.KT); ok {
+						kv = in.D.Const(iv, w, sg)
+					} else {
+						kv = in.D.Const(iv, 64, true)
+					}
+				default:
+					kv = &StrVal{Known: true, S: k[2:]}
+				}
+				keys = append(keys, kv)
+				vals = append(vals, c.V)
+			}
+			n = len(keys)
+			mapKeys = keys
+			at = func(i int) Value { return vals[i] }
 		default:
 			in.fail(x, "range over %T", coll)
 		}
@@ -561,7 +591,11 @@ func (in *Interp) stmt(s ast.Stmt) {
 					in.store(in.lvalue(id), Copy(v))
 				}
 			}
-			bind(x.Key, in.D.Const(int64(i), 64, true))
+			if mapKeys != nil {
+				bind(x.Key, mapKeys[i])
+			} else {
+				bind(x.Key, in.D.Const(int64(i), 64, true))
+			}
 			if x.Value != nil {
 				bind(x.Value, at(i))
 			}
@@ -776,6 +810,16 @@ func (in *Interp) assignStmt(x *ast.AssignStmt) {
 	if len(x.Lhs) > 1 && len(x.Rhs) == 1 {
 		var t Tuple
 		switch r := x.Rhs[0].(type) {
+		case *ast.IndexExpr:
+			v, present, isMap := in.mapLookup(r)
+			if !isMap {
+				in.fail(x, "comma-ok on a non-map index")
+			}
+			if present {
+				t = Tuple{v, in.D.Bool(True)}
+			} else {
+				t = Tuple{v, in.D.Bool(False)}
+			}
 		case *ast.TypeAssertExpr:
 			v := in.expr(r.X)
 			dynT, dyn := in.dynamic(v, r)
@@ -828,7 +872,7 @@ func (in *Interp) conv(v Value, t types.Type) Value {
 		}
 	case NilVal:
 		if isErrorType(t) {
-			return &ErrVal{False}
+			return &ErrVal{NonNil: False}
 		}
 		switch u := t.Underlying().(type) {
 		case *types.Slice:
@@ -916,6 +960,29 @@ func (in *Interp) lvalue(e ast.Expr) *Cell {
 			base = in.lvalue(x.X).V
 		} else {
 			base = in.expr(x.X)
+		}
+		if mt, isMap := in.info().TypeOf(x.X).Underlying().(*types.Map); isMap {
+			m, ok := base.(*MapVal)
+			if !ok {
+				if _, isNil := base.(NilVal); isNil {
+					in.crash(x, "assignment to entry in nil map")
+				}
+				in.fail(x, "map store on %T", base)
+			}
+			k, ok := in.mapKey(in.toType(in.expr(x.Index), in.info().TypeOf(x.Index), mt.Key()))
+			if !ok {
+				in.fail(x, "map store with a symbolic key")
+			}
+			c := m.E[k]
+			if c == nil {
+				if len(in.logs) > 0 || in.escaped() != False {
+					in.fail(x, "insertion of a new map key under a symbolic condition")
+				}
+				c = &Cell{}
+				m.E[k] = c
+				m.Order = append(m.Order, k)
+			}
+			return c
 		}
 		idx, ok := in.expr(x.Index).(*Bits)
 		if !ok {
@@ -1013,12 +1080,41 @@ func (in *Interp) global(o types.Object, at ast.Node) *Cell {
 					} else {
 						c.V = in.Zero(o.Type())
 					}
+					in.runInits(pk)
 					return c
 				}
 			}
 		}
 	}
 	return nil
+}
+
+// runInits interprets the init functions of a package once, before the first of its variables is handed out (Go runs
+// them after all variable initialisers; variables they touch are evaluated on demand).
+func (in *Interp) runInits(pk *packages.Package) {
+	if in.initsDone == nil {
+		in.initsDone = map[*packages.Package]bool{}
+	}
+	if in.initsDone[pk] {
+		return
+	}
+	in.initsDone[pk] = true
+	for _, f := range pk.Syntax {
+		for _, d := range f.Decls {
+			fd, ok := d.(*ast.FuncDecl)
+			if !ok || fd.Recv != nil || fd.Name.Name != "init" || fd.Body == nil {
+				continue
+			}
+			savedLive, savedBase, savedLogs := in.live, in.ctlBase, in.logs
+			in.live, in.logs = True, nil
+			in.ctlBase = len(in.ctl)
+			in.frames = append(in.frames, &frame{pkg: pk, env: map[types.Object]*Cell{}, fn: "init", results: types.NewTuple()})
+			in.block(fd.Body.List)
+			in.frames = in.frames[:len(in.frames)-1]
+			in.live, in.ctlBase, in.logs = savedLive, savedBase, savedLogs
+			in.D.Cond = savedLive
+		}
+	}
 }
 
 // cond evaluates a boolean expression to a BDD node.
@@ -1112,7 +1208,22 @@ func (in *Interp) crash(n ast.Node, f string, a ...interface{}) {
 // callFuncLit interprets an immediately invoked function literal `func(params) results { … }(args)`: a frame that
 // shares the cells of the enclosing activation (closures capture by reference) plus its own parameters and results.
 func (in *Interp) callFuncLit(lit *ast.FuncLit, args []Value) []Value {
-	info := in.info()
+	outer := in.fr()
+	return in.callLit(lit, outer.pkg, outer.env, outer.fn+".func", args)
+}
+
+// callFuncVal calls a function value with the arguments of call expression x.
+func (in *Interp) callFuncVal(fv *FuncVal, x *ast.CallExpr) []Value {
+	if fv.Decl != nil {
+		return in.callFunc(fv.Decl, nil, nil, in.args(x, fv.Decl.Type().(*types.Signature)))
+	}
+	sig, _ := fv.Pkg.TypesInfo.TypeOf(fv.Lit).(*types.Signature)
+	return in.callLit(fv.Lit, fv.Pkg, fv.Env, "func literal", in.args(x, sig))
+}
+
+// callLit interprets a function literal in the environment it captured (cells shared: capture by reference).
+func (in *Interp) callLit(lit *ast.FuncLit, pk *packages.Package, env map[types.Object]*Cell, name string, args []Value) []Value {
+	info := pk.TypesInfo
 	sig, ok := info.TypeOf(lit).(*types.Signature)
 	if !ok {
 		unsupported("function literal without a signature")
@@ -1120,9 +1231,8 @@ func (in *Interp) callFuncLit(lit *ast.FuncLit, args []Value) []Value {
 	if in.depth > 24 {
 		unsupported("call depth")
 	}
-	outer := in.fr()
-	f := &frame{pkg: outer.pkg, env: map[types.Object]*Cell{}, results: sig.Results(), fn: outer.fn + ".func"}
-	for o, c := range outer.env {
+	f := &frame{pkg: pk, env: map[types.Object]*Cell{}, results: sig.Results(), fn: name}
+	for o, c := range env {
 		f.env[o] = c
 	}
 	i := 0
